@@ -170,7 +170,142 @@ class Sched(object):
             self.current = prev
 
 
+class ThreadSched(Sched):
+    """Several application threads (C05): each is a real OS thread, but
+    exactly one thread (an application thread or the harness's main thread,
+    which plays 'setup' / 'link' and is the scheduler) runs at any time; the
+    baton changes hands only where an application thread blocks in
+    Condition.wait() or ends (non-preemptive schedules; z3 is used by one
+    thread at a time).  Condition.notify(n) wakes the first n waiters in FIFO
+    order, as threading.Condition does.  The main thread decides which woken
+    thread runs next (`runnable()`, `run()`)."""
+
+    def __init__(self, sx=None):
+        Sched.__init__(self, sx)
+        self.threads = {}
+        self.cv = _threading.Condition()
+        self.turn = 'main'
+
+    class Rec(object):
+        def __init__(self, name, fn):
+            self.name, self.fn = name, fn
+            self.state = 'new'          # new | parked | done
+            self.cell = None            # [woken] while parked
+            self.timed = False
+            self.site = None
+            self.kill = False
+            self.result = None
+            self.exc = None
+            self.thread = None
+
+    def spawn(self, name, fn):
+        rec = ThreadSched.Rec(name, fn)
+        self.threads[name] = rec
+        self.held[name] = 0
+        rec.thread = _threading.Thread(target=self._body, args=(rec,),
+                                       daemon=True)
+        rec.thread.start()
+        return rec
+
+    def _body(self, rec):
+        with self.cv:
+            while self.turn != rec.name:
+                self.cv.wait()
+        try:
+            if rec.kill:
+                raise LeftWaiting("not started")
+            rec.result = rec.fn()
+        except BaseException as e:      # incl. engine control flow: re-raised
+            rec.exc = e                 # in the main thread by run()
+        rec.state = 'done'
+        with self.cv:
+            self.turn = 'main'
+            self.cv.notify_all()
+
+    def _switch(self, to, me):
+        with self.cv:
+            self.turn = to
+            self.cv.notify_all()
+            while self.turn != me:
+                self.cv.wait()
+
+    def runnable(self):
+        out = []
+        for n in sorted(self.threads):
+            r = self.threads[n]
+            if r.state == 'new' or (r.state == 'parked' and r.cell[0]):
+                out.append(n)
+        return out
+
+    def parked(self):
+        return [n for n in sorted(self.threads)
+                if self.threads[n].state == 'parked']
+
+    def run(self, name, timeout=False):
+        """main thread: let `name` run until it blocks or ends"""
+        rec = self.threads[name]
+        if rec.state == 'parked' and not rec.cell[0] and not rec.kill \
+                and not (timeout and rec.timed):
+            raise RuntimeError("coop: thread %s is not runnable" % name)
+        prev = self.current
+        self.current = name
+        self._switch(name, 'main')
+        self.current = prev
+        e = rec.exc
+        if e is not None and not isinstance(e, (Exception, CoopSignal)):
+            rec.exc = None
+            raise e                     # SxAbort and the like
+        return rec.state
+
+    def thread_wait(self, cond, timeout, site):
+        rec = self.threads[self.current]
+        self.nwaits += 1
+        self.waits.append(site)
+        if self.nwaits > self.MAX_WAITS:
+            raise Livelock(site)
+        cell = [False]
+        cond.waiters.append(cell)
+        rec.cell, rec.site, rec.timed = cell, site, timeout is not None
+        rec.state = 'parked'
+        st = cond.lock._release_save()
+        try:
+            self._switch('main', rec.name)
+            if rec.kill:
+                raise LeftWaiting(site)
+            if cond.lock.count:
+                raise RuntimeError("coop: lock busy at wake-up of " + rec.name)
+            if not cell[0]:
+                if cell in cond.waiters:
+                    cond.waiters.remove(cell)
+                CLOCK.sleep(timeout)
+                return False
+            return True
+        finally:
+            rec.state = 'run'
+            rec.cell = None
+            cond.lock._acquire_restore(st)
+
+    def shutdown(self):
+        """end of the path: unwind every thread that has not ended"""
+        for name in sorted(self.threads):
+            rec = self.threads[name]
+            if rec.state != 'done':
+                rec.kill = True
+                prev = self.current
+                self.current = name
+                self._switch(name, 'main')
+                self.current = prev
+            rec.thread.join(5)
+        self.threads = {}
+
+
 SCHED = Sched()
+
+
+def new_threaded(sx):
+    global SCHED
+    SCHED = ThreadSched(sx)
+    return SCHED
 
 
 def new_sched(sx):
@@ -236,6 +371,7 @@ class CoopCondition(object):
     def __init__(self, lock=None):
         self.lock = lock if lock is not None else CoopRLock()
         self.gen = 0
+        self.waiters = []        # threaded mode: [woken] cells, FIFO
 
     def acquire(self, *a, **kw):
         return self.lock.acquire(*a, **kw)
@@ -253,9 +389,13 @@ class CoopCondition(object):
         if self.lock.owner != SCHED.current:
             raise RuntimeError("cannot notify on un-acquired lock")
         self.gen += 1
+        # threaded mode: like threading.Condition, the first n waiters (FIFO)
+        for w in self.waiters[:n]:
+            w[0] = True
+        del self.waiters[:n]
 
     def notify_all(self):
-        self.notify()
+        self.notify(max(1, len(self.waiters)))
 
     notifyAll = notify_all
 
@@ -265,6 +405,8 @@ class CoopCondition(object):
         if self.lock.owner != me or self.lock.count == 0:
             raise RuntimeError("cannot wait on un-acquired lock")
         site = _site()
+        if me in getattr(s, 'threads', ()):
+            return s.thread_wait(self, timeout, site)
         if me == 'setup':
             if timeout is None:
                 raise SetupBlock(site)
